@@ -8,10 +8,10 @@ props = [json.loads(l) for l in open(os.path.join(VERIF, "properties.jsonl"))]
 
 # id -> (engine, technique, level text, level note, design ref)
 CHECKS = {
-    "C01": ("pbt-programs", "Hypothesis-generated ordered unit pairs with model-different dimensions (near misses, independent trees, special pairs) x ~70 operations: negative compile probe (must fail) paired with a positive twin (must compile), plus positive trait TUs that must compile and answer no (Quantity and QuantityPoint, both directions, non-zero origins)",
+    "C01": ("pbt-programs", "Hypothesis-generated ordered unit pairs with model-different dimensions (near misses, independent trees, special pairs, same-base exponent arithmetic, integer powers of scaled fractional-dimension units) x ~70 operations: negative compile probe (must fail) paired with a positive twin (must compile), plus positive trait TUs that must compile and answer no (Quantity and QuantityPoint, both directions, non-zero origins)",
             "Exploration: fixed grid (every operation x 5 unit pairs) plus random pairs, rotating over the six compiler/standard configurations (thorough: all six).",
             "trusts the model's dimension vectors; a probe only counts when its twin compiled in the same configuration", "4/C01"),
-    "C02": ("pbt-programs", "Hypothesis-generated unit expression trees in five spellings, compiled as static_assert batches: is_same of DimT/MagT against model-spelled canonical types, equivalence/ratio predicates on pairs built equal-by-another-route or as near misses, type identity of permuted products and of every pure product/power tree (incl. partially cancelling exponents such as pow<2>(root<4>(x))) with the canonical alias UnitProductT<UnitPowerT<U,n,d>...> spelled from net exact exponents",
+    "C02": ("pbt-programs", "Hypothesis-generated unit expression trees (incl. non-reduced exponents and integer powers of scaled roots) in five spellings, compiled as static_assert batches: is_same of DimT/MagT against model-spelled canonical types, equivalence/ratio predicates on pairs built equal-by-another-route or as near misses, type identity of permuted products and of every pure product/power tree (incl. partially cancelling exponents such as pow<2>(root<4>(x))) with the canonical alias UnitProductT<UnitPowerT<U,n,d>...> spelled from net exact exponents",
             "Exploration: a fixed grid (every library unit x 5 spellings, every derived unit against its physical definition, every prefix) plus thousands of random trees/pairs per run, each judged individually under rotating (thorough: all six) compiler configurations. No completeness over all expression trees.",
             "trusts the independently written unit table (auverif/model.py), Python Fractions, and the compilers' static_assert verdicts", "4/C02"),
     "C03": ("pbt-values", "generated instances (grid + Hypothesis) x exhaustive 8/16-bit loops + boundary sets + rapidcheck draws vs exact 128-bit oracle under ASan/UBSan",
@@ -23,7 +23,7 @@ CHECKS = {
     "C12": ("pbt-values", "exhaustive comparison with an independent sieve below 2^26/2^30, adversarial 64-bit input families selected by independent code vs deterministic Miller-Rabin, rapidcheck triples for the modular helpers vs unsigned __int128, Hypothesis-generated static_asserts on mag<N>() vs sympy factorisations; coverage-guided libFuzzer target with the oracle inside (both tiers: 16 x 150k executions quick, 16 x 20M thorough)",
             "Exploration: exhaustive for all n below the bound, structured adversarial sets (pseudoprime families, Carmichael numbers, squares, semiprimes near 2^16/2^31/2^32, neighbours of 2^k, k*2^t+-1 for every t) and random 64-bit operands beyond it. Inputs confined to a tiny region that is not one of these structures (e.g. a spurious wrap in is_perfect_square) are out of reach.",
             "trusts the deterministic 7-base Miller-Rabin oracle, unsigned __int128 arithmetic and sympy.factorint", "4/C12"),
-    "C13": ("pbt-values", "generated programs: memcmp round trip over all 8/16-bit values and float bit patterns, all 8x8-bit operand pairs and rapidcheck/special grids for wider reps, result type pinned by static_assert against the raw operator, accepted by all six configurations; layout facts as static_assert grids over units x reps (Hypothesis-generated compound units)",
+    "C13": ("pbt-values", "generated programs: memcmp round trip over all 8/16-bit values and float bit patterns, all 8x8-bit operand pairs and rapidcheck/special grids for wider reps, result type pinned by static_assert against the raw operator, accepted by all six configurations and built + run as a complete program at -O0 per configuration; layout facts as static_assert grids over units x reps (Hypothesis-generated compound units)",
             "Exploration: exhaustive where the domain is small (8-bit operand pairs, 16-bit values, 2^32 float patterns in the thorough tier), structured specials + random draws otherwise; one known finding (F5) is excluded by construction and re-checked by a pinned reproducer.",
             "trusts the raw operators compiled by the same compiler as oracle; NaN results compared as both-NaN", "4/C13"),
     "C08": ("pbt-values", "generated (unit pair, rep pair) instances from the gcd-unit model; exhaustive 8-bit x 8/16-bit operand pairs, enumerated edge grids and rapidcheck draws (equal / off-by-one / overflow-edge classes) vs 128-bit exact ordering, sum, difference, remainder; <=> under C++20; float instances with 4/8-ulp bands; negative probes for forms the policy must refuse",
@@ -35,7 +35,7 @@ CHECKS = {
     "C06": ("pbt-programs", "Hypothesis-generated (R1,R2,ratio) cases around every 2147-threshold compiled as static_assert blocks that must compile whatever the answer (totality) and answer as the model predicts (is_convertible/constructible/assignable, overload-resolution probe, common_type detection, QuantityPoint pairs); generated UBSan programs convert all |x|<=2147 for permitted integral cases; negative probes for unit-only as/in",
             "Exploration: enumerated grid of 10x10 reps x threshold-straddling factors plus random smooth ratios, every case judged individually under two configurations per run (rotating).",
             "trusts the documented predicate as model (reps.implicit_ok) and 128-bit products", "4/C06"),
-    "C07": ("pbt-programs", "Hypothesis-generated lists of same-dimension units (library, prefixed, anonymous/named scalings up to 2^40, pi powers) compiled as static_assert blocks: permutation/repetition identity, gcd magnitude spelled from the model, integer ratios with model values, input-already-common rule, nesting, std::common_type of quantities",
+    "C07": ("pbt-programs", "Hypothesis-generated lists of same-dimension units (library, prefixed, anonymous/named scalings up to 2^40, pi powers, coinciding scalings of different bases, prefix-sharing chains P, P*q^a/r, P*t/p^b) compiled as static_assert blocks: permutation/repetition identity, gcd magnitude spelled from the model, integer ratios with model values, input-already-common rule, nesting, std::common_type of quantities",
             "Exploration: enumerated grid (all pairs/triples inside each library family, named-vs-anonymous equivalents) plus random lists, every permutation of each; no completeness over all lists.",
             "trusts the model gcd over the independently tabulated magnitudes", "4/C07"),
     "C10": ("pbt-programs", "Hypothesis-generated pairs/triples of point units (library temperature units, prefixed forms, generated scale+origin units); permutation/repetition identity by static_assert; a validity predicate evaluated on constexpr conversions of 0,1,7 (long long, long double, unsigned) and cross-checked against exact model fractions",
@@ -50,7 +50,7 @@ CHECKS = {
     "C19": ("pbt-values", "generated (unit, rep) instances; all 8/16-bit values, special grids and rapidcheck draws (NaN/inf/-0/denormals/raw bits) comparing every ZERO expression with the raw operator against 0 (value and result type); conversion of ZERO to all reps and chrono durations; negative compile probes with twins for every place a quantity point is required, and trait / decltype-detection blocks (is_constructible, is_convertible, is_assignable, ==, <) that must answer no for points and yes for the Quantity twins",
             "Exploration: exhaustive for small reps, specials + random otherwise, across generated compound units; enumerated negative probes.",
             "raw operators compiled by the same compiler are the oracle; NaN results compared as both-NaN", "4/C19"),
-    "C14": ("pbt-values", "Hypothesis-generated unit pairs biased to exact and dimension-only cancellation x rep pairs: result type pinned by static_assert (raw number iff the model says the units cancel, else Quantity with model-spelled Dimension/Magnitude and raw rep), values bit-equal to raw operators over all 8x8-bit pairs, special grids and rapidcheck draws; int_pow/sqrt/cbrt/inverse checks; negative probes with twins for the integer-division and as_raw_number guards",
+    "C14": ("pbt-values", "Hypothesis-generated unit pairs biased to exact and dimension-only cancellation and to powers of one base (B^a with B^b) x rep pairs: result type pinned by static_assert (raw number iff the model says the units cancel, else Quantity with model-spelled Dimension/Magnitude and raw rep), values bit-equal to raw operators over all 8x8-bit pairs, special grids and rapidcheck draws; int_pow/sqrt/cbrt/inverse checks; negative probes with twins for the integer-division and as_raw_number guards",
             "Exploration: exact for sampled instances under ASan+UBSan; guards probed on an enumerated list of unit/rep combinations.",
             "collapse rule asserted for * and / between quantities (documented scope); int_pow result rep not asserted", "4/C14"),
     "C15": ("pbt-values", "generated instances per function family: rounding (exhaustive +-2^16 integers, doubles placed k ulp around half-integers/integers of the TARGET unit) against the exact long-double value with a 4-ulp band; inversion (n=1..1000 exhaustive + round trip + random) against trunc(K/x); trig against long double std:: of exact radians with a stated tolerance; hypot/fmod/remainder/min/max/clamp/abs/isnan/copysign against std:: on common-unit values incl. NaN/inf/signed zeros; negative probes for integral inversions with K < 10^6",
@@ -59,7 +59,7 @@ CHECKS = {
     "C16": ("pbt-programs", "Hypothesis-generated (constant, target unit, type) cases: library constants modelled from the SI exact values and make_constant of generated units with integer/rational/huge-prime/pi magnitudes; static_assert of can_store_value_in and of the converted values against exact ratios / 30-digit bounds, negative probes (with twins) for every conversion form when the ratio is not representable, algebra cases pinning stored number and spelled result unit",
             "Exploration: grid over the 9 library constants x types plus random generated constants, scale factors straddling each type's limits and ratios constructed next to the limits of T (C11's near-limit construction).",
             "same floating bands as C11; model of the constants independent of the headers", "4/C16"),
-    "C17": ("pbt-values", "generated (Rep1, Period1, Rep2, Period2) instances (library typedef periods, awkward ratios, random ratios): round trips bit-exact with rep/unit/period pinned by static_assert; mixed duration/quantity comparisons, sums and differences in both operand orders against chrono's own results (differential oracle) where the model says chrono does not overflow, built as C++20 and syntax-checked elsewhere; acceptance traits against the C06 model",
+    "C17": ("pbt-values", "generated (Rep1, Period1, Rep2, Period2) instances (library typedef periods incl. the C++20 calendar typedefs days/weeks/months/years, awkward ratios, random ratios): round trips bit-exact with rep/unit/period pinned by static_assert; mixed duration/quantity comparisons, sums and differences in both operand orders against chrono's own results (differential oracle) where the model says chrono does not overflow, built as C++20 and syntax-checked elsewhere; acceptance traits against the C06 model",
             "Exploration with chrono itself as the differential oracle; special grids + rapidcheck draws incl. near-equal counts across periods.",
             "mixed operations compared only on instances admitted by Au's conversion policy (model-predicted, compile-checked)", "4/C17"),
     "C18": ("pbt-programs", "Hypothesis-generated unit expressions (labelled/unlabelled named units, huge/rational/irrational scale factors, common_unit / common_point_unit of 2-3 same-dimension units) whose printed label is parsed by an independent parser of the documented grammar and evaluated back to (dimension, magnitude): denotation round trip against the model; sizeof/strlen, cross-compiler determinism, exact strings for simple shapes, IToA/UIToA digits, exhaustive streaming of all 8-bit reps incl. plain char; everything under ASan+UBSan",
